@@ -70,6 +70,10 @@ func (a *apiServer) CreateStream(ctx context.Context, req *client.CreateStreamRe
 		a.logger.Errorf("api: Failed to create stream: stream is reserved")
 		return nil, status.Error(codes.InvalidArgument, "Stream is reserved")
 	}
+	if req.Partitions < 0 {
+		a.logger.Errorf("api: Failed to create stream: partitions cannot be negative")
+		return nil, status.Error(codes.InvalidArgument, "Partitions cannot be negative")
+	}
 
 	partitions := make([]*proto.Partition, req.Partitions)
 	for i := int32(0); i < req.Partitions; i++ {
